@@ -69,6 +69,8 @@ def run_case(a):
     drv = a[6] if len(a) > 6 else None
     rnd = random.Random(seed)
     files = compound.gen(rnd, idx)
+    if idx % 9 == 7:
+        files = compound.events_only(files, idx)
     dup_names = idx % 5 == 3
     if dup_names:
         # one type name defined in several files (different modules of one crate) with different bodies: whichever definition the
